@@ -32,7 +32,8 @@ RULE = ("Five case types. stripe: a common-mode disturbance (1-5 sinusoids, AP 3
         "shuffled; arbitrary numeric group values) and drawn operator / lagc / ntr_pad / ntr_tap / butter_kwargs / "
         "btype / kfilt / vbounds: output == the same call on each group alone written back to its rows (1e-12 scale); "
         "car output has zero median / mean per group and sample. agc: random (channels x samples) data incl. all-zero "
-        "rows and zero stretches, window 1..4001 samples through (wl, si), epsilon default or > 0: out * gain == input "
+        "rows and zero stretches, window 1..4001 samples through (wl, si), epsilon default or > 0, lengths with ns + window "
+        "== 3^k forced in one case of twelve (also as destripe / kfilt / fk batch length): out * gain == input "
         "(1e-12 scale, float32 1e-6), zero rows stay zero, all finite. Non-trivial = stripe with non-zero ADC shifts "
         "and a component >= 1 kHz (LFP >= 50 Hz); spike under the k-filter; labels with both kinds of channels; coll "
         "with >= 2 groups and a non-default operator / lagc / pad / btype / kfilt; agc with window > 1 and non-zero "
@@ -55,8 +56,6 @@ ASSUMPTIONS = [
     "bad channels (labels 1/2) are generated farther than 100 um (header x/y, shank ignored as interpolate_bad_channels "
     "does) from any channel labelled 3 in the metamorphic test: the interpolation, not the spatial filter, reads "
     "3-labelled neighbours and the property only excludes them from the spatial filter",
-    "batch lengths with ns + AGC window == 3^k are kept out of destripe / kfilt / fk cases (they crash in agc through "
-    "fourier.convolve, the C18 finding); the agc cases contain them as their own class",
     "agc: epsilon > 0 (with epsilon = 0 a zero stretch gives gain 0 and 0/0)",
     "an upper bound on the kept spike amplitude is not asserted (the property states a lower bound); the maximum is "
     "reported as a margin",
@@ -482,6 +481,8 @@ def _common_labels(case, ctx, labels):
     ctx.label("t_" + case["t"], "probe_" + case["probe"], "kfilt" if case["kf"] else "car",
               "lfp" if case.get("lfp") else "ap", "hmode_" + case.get("hmode", "h"), "nc%d" % case["nc"],
               "labels" if labels is not None else "nolabels")
+    if any((case["ns"] + w) in POW3 for w in _kfilt_wins(case)):
+        ctx.label("ns_plus_agc_window_pow3")
     if labels is not None:
         if np.any((labels == 1) | (labels == 2)):
             ctx.label("labels_bad")
